@@ -141,6 +141,19 @@ def rule_l1(F):
                                 if mir.origin(cb, cdefs, ct["args"][0][1])[0] == "arg1":
                                     mine.append((cb, cdefs, cbi, ct))
             if not mine:
+                # a builder that is handed, fresh, to an accumulating closure (`try_fold(LayoutBuilder::new(), |mut b, t| { b.add(..) })`):
+                # the closure's adds on its accumulator parameter are this walk - and it has no seed
+                for obi, ot in mir.calls(b):
+                    if not any(mir.is_place_op(a) and base_local(b, defs, a[1]) in holders for a in ot["args"]):
+                        continue
+                    for cb in closures:
+                        if cb.path.startswith(b.path.split("::{closure")[0] + "::{closure") and any(mir.is_place_op(a) and cb.path in str(_agg_of(b, defs, a[1][0])) for a in ot["args"]):
+                            cdefs = mir.Defs(cb)
+                            for cbi, ct in mir.calls(cb):
+                                if mir.callee_def(ct).endswith("LayoutBuilder::add") and mir.is_place_op(ct["args"][0]) and mir.origin(cb, cdefs, ct["args"][0][1])[0].startswith("arg") \
+                                        and mir.origin(cb, cdefs, ct["args"][0][1])[0] != "arg1":
+                                    mine.append((cb, cdefs, cbi, ct))
+            if not mine:
                 continue
             main = [x for x in mine if x[0] is b] or mine
             fdom = dom if main[0][0] is b else mir.dominators(main[0][0])
